@@ -105,6 +105,8 @@ for C44 also subscribe/connect), `O` what it emits. -/
 structure Sys (G L A O : Type) where
   create : G → L × G
   step : G → L → A → G × L × List O
+  /-- what an instance emits while it is being created (`start_with` values, `empty()` of `take(0)`) -/
+  createOut : G → List O := fun _ => []
 
 inductive Act (A : Type) where
   | create (i : Nat)
@@ -124,7 +126,7 @@ variable {G L A O : Type}
 def runG (s : Sys G L A O) : G → List (Nat × L) → List (Act A) → List (Nat × O)
   | _, _, [] => []
   | g, m, .create i :: rest =>
-    runG s (s.create g).2 (update m i (s.create g).1) rest
+    (s.createOut g).map (fun o => (i, o)) ++ runG s (s.create g).2 (update m i (s.create g).1) rest
   | g, m, .act i a :: rest =>
     match lookup m i with
     | none => runG s g m rest
@@ -137,7 +139,7 @@ def outputsOf (i : Nat) (r : List (Nat × O)) : List O :=
 /-- one instance alone: `none` = (re)create, `some a` = action -/
 def runI (s : Sys G L A O) (g : G) : Option L → List (Option A) → List O
   | _, [] => []
-  | _, none :: rest => runI s g (some (s.create g).1) rest
+  | _, none :: rest => s.createOut g ++ runI s g (some (s.create g).1) rest
   | none, some _ :: rest => runI s g none rest
   | some l, some a :: rest => (s.step g l a).2.2 ++ runI s g (some (s.step g l a).2.1) rest
 
@@ -146,6 +148,21 @@ def restrict (i : Nat) : List (Act A) → List (Option A)
   | [] => []
   | .create j :: rest => if j = i then none :: restrict i rest else restrict i rest
   | .act j a :: rest => if j = i then some a :: restrict i rest else restrict i rest
+
+/-- one action of the family, returning the new shared state and store too -/
+def stepG (s : Sys G L A O) (g : G) (m : List (Nat × L)) : Act A → G × List (Nat × L) × List (Nat × O)
+  | .create i => ((s.create g).2, update m i (s.create g).1, (s.createOut g).map (fun o => (i, o)))
+  | .act i a =>
+    match lookup m i with
+    | none => (g, m, [])
+    | some l => ((s.step g l a).1, update m i (s.step g l a).2.1, (s.step g l a).2.2.map (fun o => (i, o)))
+
+/-- a whole family as ONE instance of a family one level up (C44: an application of an operator to a
+source, with all the subscriptions made to the result): the shared state is the same `G`, the
+instance state is the store of the inner instances, its actions are the inner family's actions. -/
+def Sys.lift (s : Sys G L A O) : Sys G (List (Nat × L)) (Act A) (Nat × O) where
+  create := fun g => ([], g)
+  step := fun g m a => stepG s g m a
 
 /-- frame condition: the shared state is never written -/
 def Framed (s : Sys G L A O) : Prop :=
